@@ -21,6 +21,10 @@ PROP = dict(
         "the harness measures runtime.MemStats.TotalAlloc around DeserializeBoc",
     ],
     assumptions=[
+        "hash_no_panic is about the tree-level hashing model with `parsedBuf` buffers (ceil(len/8) data bytes, as the "
+        "parser builds them); its tie to immutable_cell.go belongs to C02 (root hashes compared on every parsed input here)",
+        "parse_alloc bounds the model's own accounting of requested bytes (make/New/append as charged in "
+        "TongoModel/Boc.lean, incl. the growth of the cell buffer to 128 bytes); Go's TotalAlloc is measured per input",
         "the input is a Go slice: length < 2^63",
         "the theorems are about the REPAIRED reader (fix: commits 9bb2025, 8c4d1ff, 318c847, de8385b, a692f50, 45be0d5 in the "
         "repository under test); on the original code parse_total, parse_sound and parse_alloc are false (witnesses "
@@ -40,12 +44,12 @@ PROP = dict(
         "(depth+263), TotalAlloc <= 32 x output + 1 MiB) and lines:bytes are compared Go vs model (boc.tostring)",
         "measured allocation bound used by the oracle: TotalAlloc(DeserializeBoc) <= 256*|input| + 1 MiB (a 2-byte cell "
         "costs a 112-byte struct and a 128-byte buffer, so 16 bytes per input byte is not achievable); the model "
-        "theorem is parse_alloc <= 189*|input| + 8 in requested bytes",
+        "theorem is parse_alloc <= 317*|input| + 8 in requested bytes",
     ],
     level="proof",
     level_text="Theorems for ALL byte strings (Lean 4): parse_total -- the model of the repaired reader, with every Go "
                "slice/index/make as an explicit partial operation and Go integer wrap-around, never panics; "
-               "parse_alloc -- bytes requested from the allocator <= 189*|input| + 8 on every path incl. errors; "
+               "parse_alloc -- bytes requested from the allocator <= 317*|input| + 8 on every path incl. errors; "
                "parse_sound -- every returned cell has <= 1023 bits, <= 4 refs, every ref points to a LATER cell of the "
                "table (acyclic, present), pruned branches are complete, roots are cells, depth <= 1024; unfold_defined -- "
                "hence every root denotes a finite tree and recursion over it nests <= 1025 levels whatever the input; "
